@@ -39,7 +39,8 @@ Contexts ==
     nl |-> << <<"", "">>, <<"Er zijn ", " katten">>, <<"Totaal: ", ".">>, <<"Wij zagen ", ", verder niets">> >> ]
 
 \* ---- the number domain ---------------------------------------------------
-NUpto == Params.upto
+NUpto == Params.upto                                                  \* how many consecutive numbers
+From == IF "from" \in DOMAIN Params THEN Params.from ELSE 0          \* ... starting from here (chunked sweeps)
 NRep == Len(Params.rlow) * Len(Params.rlow) * Len(Params.rhigh) * Len(Params.rhigh)
 RepGs(j) == LET nl == Len(Params.rlow) nh == Len(Params.rhigh) IN
    <<Params.rlow[(j % nl) + 1], Params.rlow[((j \div nl) % nl) + 1],
@@ -51,7 +52,7 @@ RandGs(x) == LET a == Lcg(x) b == Lcg(a) c == Lcg(b) d == Lcg(c) k == (x \div 16
      IF k >= 3 THEN (d \div 8) % 1000 ELSE 0>>
 NNum == NUpto + NRep + Params.randn
 GsOf(L, j) ==    \* j in 0..NNum-1
-  IF j < NUpto THEN <<j % 1000, j \div 1000, 0, 0>>
+  IF j < NUpto THEN <<(From + j) % 1000, (From + j) \div 1000, 0, 0>>
   ELSE IF j < NUpto + NRep THEN RepGs(j - NUpto)
   ELSE RandGs(Start(Seed, Len(L) + 41, j - NUpto - NRep))
 
@@ -105,7 +106,7 @@ OrdContexts ==
     nl |-> << <<"", "">>, <<"de ", " keer">>, <<"Het was de ", ".">> >> ]
 \* C04: ordinals.  ranks: every rank below upto, then 10^6, then seeded ranks below 10^6 (es/pt: below 2000)
 OrdGs(L, j) == LET lim == IF L \in {"es", "pt"} THEN 1999 ELSE 999999 IN
-  IF j < NUpto - 1 THEN (IF j + 1 <= lim THEN <<(j + 1) % 1000, (j + 1) \div 1000, 0, 0>> ELSE <<(j % 999) + 1, 1, 0, 0>>)
+  IF j < NUpto - 1 THEN (IF From + j + 1 <= lim THEN <<(From + j + 1) % 1000, (From + j + 1) \div 1000, 0, 0>> ELSE <<(j % 999) + 1, 1, 0, 0>>)
   ELSE IF j = NUpto - 1 THEN (IF L \in {"es", "pt"} THEN <<999, 1, 0, 0>> ELSE <<0, 0, 1, 0>>)
   ELSE LET x == Start(Seed, 23 + Len(L), j)  a == (Lcg(x) \div 8) % 1000  b == (Lcg(Lcg(x)) \div 8) % 1000 IN
        IF L \in {"es", "pt"} THEN <<IF a = 0 THEN 1 ELSE a, b % 2, 0, 0>> ELSE <<IF a = 0 /\ b = 0 THEN 1 ELSE a, b, 0, 0>>
